@@ -183,6 +183,9 @@ type c20Config struct {
 	// same fail-over pair, the way the proxy does with every request that arrives over TCP (the
 	// client has reconnected); that connection fails on its first write as well
 	Rereg bool `json:"new_failing_inbound_connection_registered_before_each_later_message"`
+	// Repeat: every message of the sequence is the same message, byte for byte (a retransmission
+	// handed down by the layer above)
+	Repeat bool `json:"the_same_message_every_time"`
 	// WaitMs: time that passes between the creation of the transports and the first message
 	WaitMs int `json:"idle_ms_before_first_message"`
 }
@@ -266,8 +269,15 @@ func c20Run(cfg c20Config, rnd *rand.Rand) (why string, detail map[string]any) {
 	}
 	results := make([]res, cfg.Messages)
 	wire := make([][]byte, cfg.Messages)
+	var firstMsg *Message
 	for i := 0; i < cfg.Messages; i++ {
 		m, b := c20Message(i, cfg.Size, rnd)
+		if cfg.Repeat && i > 0 {
+			m, b = firstMsg, wire[0]
+		}
+		if i == 0 {
+			firstMsg = m
+		}
 		wire[i] = b
 		if cfg.Reconnect == "refusing-then-fresh" && i == 1 {
 			var lerr error
@@ -337,7 +347,19 @@ func c20Run(cfg c20Config, rnd *rand.Rand) (why string, detail map[string]any) {
 			sinkBufs = sink.snapshot()
 		}
 		missing := false
+		if cfg.Repeat {
+			okSends := 0
+			for _, r := range results {
+				if r.err == nil {
+					okSends++
+				}
+			}
+			missing = count(sinkBufs, wire[0])+count(inboundGood(), wire[0])+count(staleGood(), wire[0]) < okSends
+		}
 		for i, r := range results {
+			if cfg.Repeat {
+				break
+			}
 			if r.err == nil && cfg.Reconnect != "accept-reset" {
 				if count(sinkBufs, wire[i])+count(inboundGood(), wire[i])+count(staleGood(), wire[i]) < 1 {
 					missing = true
@@ -350,6 +372,20 @@ func c20Run(cfg c20Config, rnd *rand.Rand) (why string, detail map[string]any) {
 		time.Sleep(2 * time.Millisecond)
 	}
 	detail["connections_accepted_by_destination"] = len(sinkBufs)
+	if cfg.Repeat {
+		// a working path exists for every send of these configurations: every send succeeds and
+		// every copy is written exactly once
+		copies := count(sinkBufs, wire[0]) + count(inboundGood(), wire[0]) + count(staleGood(), wire[0])
+		for i, r := range results {
+			if r.err != nil {
+				return fmt.Sprintf("send %d of the repeated message failed (%v) although a working path existed", i, r.err), detail
+			}
+		}
+		if copies != cfg.Messages {
+			return fmt.Sprintf("the same message was sent %d times, every send reported success, %d copies were written", cfg.Messages, copies), detail
+		}
+		return "", detail
+	}
 	inboundAlive := func(i int) bool { // was the inbound connection usable when message i was sent?
 		if cfg.Rereg && i > 0 {
 			return false
@@ -731,6 +767,29 @@ func TestVerifC20(t *testing.T) {
 		}
 		lwg.Wait()
 		n += len(late)
+	}
+	// the same message handed down two or three times (the layer above repeats it): every copy
+	// is written, whatever became of the connection in between
+	for _, target := range []string{"client", "backend"} {
+		for _, in := range []inb{{"absent", false, 0, false}, {"healthy", true, 0, false}, {"fail@1", true, 1, false}, {"fail@2", true, 2, false}} {
+			for _, rc := range []string{"fresh", "stale-once"} {
+				if target == "backend" && rc == "stale-once" {
+					continue
+				}
+				for msgs := 2; msgs <= 3; msgs++ {
+					cfg := c20Config{Target: target, Inbound: in.name, Reconnect: rc, Messages: msgs, Size: 300, inFailAt: in.failAt, inPartial: in.partial, hasInbound: in.has, Repeat: true}
+					if why, detail := c20Run(cfg, rnd); why != "" {
+						if why2, _ := c20Run(cfg, rnd); why2 != "" {
+							run.Violation(fmt.Sprintf("%s/%s/%s, the same message %d times: %s", target, in.name, rc, msgs, why), map[string]any{"config": cfg, "why": why, "observed": detail})
+						} else {
+							run.Inconclusive(1)
+						}
+					}
+					n++
+					run.Eval(fmt.Sprintf("%s|%s|%s|%d|repeat", target, in.name, rc, msgs))
+				}
+			}
+		}
 	}
 	// TCP backends of a listener that is configured with a fixed local port for its backends
 	// (backend-local-port): the cached connection is a real socket and goes stale because the
